@@ -8,6 +8,7 @@ import (
 	"encoding/json"
 	"fmt"
 	"os"
+	"time"
 
 	"verifharness/vlib"
 )
@@ -85,17 +86,31 @@ func main() {
 		rnd := vlib.NewRand(o.Seed)
 		thorough := o.Tier == "thorough"
 		// C17_ONLY=client restricts a development run to the client-side generators (never set by bin/check)
-		if os.Getenv("C17_ONLY") != "client" {
-			g.genValidators(rnd.Fork(1), thorough, o.Budget)
-			g.genTrie(rnd.Fork(2), thorough, o.Budget)
-			g.genService(rnd.Fork(3), thorough, o.Budget)
-			g.genReceive(rnd.Fork(4), thorough, o.Budget)
-			g.genServiceNoSideEffects(rnd.Fork(9), thorough, o.Budget)
+		// C17_TIMING=1 prints the wall time of every generator to stderr (development aid)
+		timed := func(name string, f func()) {
+			t0 := time.Now()
+			f()
+			if os.Getenv("C17_TIMING") != "" {
+				fmt.Fprintf(os.Stderr, "c17: %-28s %6.1fs\n", name, time.Since(t0).Seconds())
+			}
 		}
-		g.genClient(rnd.Fork(5), thorough, o.Budget)
-		g.genClientNoSideEffects(rnd.Fork(8), thorough, o.Budget)
-		g.genSign(rnd.Fork(6), thorough, o.Budget)
-		g.genDedup(rnd.Fork(7), thorough, o.Budget)
+		if os.Getenv("C17_ONLY") == "closerace" { // development run: only the subscribe/close race family
+			timed("service-close-race", func() { g.genServiceCloseRace(rnd.Fork(10), thorough, o.Budget) })
+			g.w.Finish(rule, g.samples, nil)
+			return
+		}
+		if os.Getenv("C17_ONLY") != "client" {
+			timed("validators", func() { g.genValidators(rnd.Fork(1), thorough, o.Budget) })
+			timed("trie", func() { g.genTrie(rnd.Fork(2), thorough, o.Budget) })
+			timed("service", func() { g.genService(rnd.Fork(3), thorough, o.Budget) })
+			g.genReceive(rnd.Fork(4), thorough, o.Budget)
+			timed("service-no-side-effects", func() { g.genServiceNoSideEffects(rnd.Fork(9), thorough, o.Budget) })
+			timed("service-close-race", func() { g.genServiceCloseRace(rnd.Fork(10), thorough, o.Budget) })
+		}
+		timed("client", func() { g.genClient(rnd.Fork(5), thorough, o.Budget) })
+		timed("client-no-side-effects", func() { g.genClientNoSideEffects(rnd.Fork(8), thorough, o.Budget) })
+		timed("sign", func() { g.genSign(rnd.Fork(6), thorough, o.Budget) })
+		timed("dedup", func() { g.genDedup(rnd.Fork(7), thorough, o.Budget) })
 	}
 	g.w.Finish(rule, g.samples, nil)
 }
